@@ -61,19 +61,22 @@ Proof.
   exfalso. destruct (Hd c M) as [->| ->]; destruct Hc as [Hc|Hc]; try discriminate.
 Qed.
 
-Lemma bytes_eqb_length a b : bytes_eqb a b = true -> length a = length b.
-Proof. intros H. apply bytes_eqb_eq in H. subst. reflexivity. Qed.
-
-Lemma ptr_match_cs t v : ptr_match t v = name_under_cs t v.
+Lemma ci_eq_length a b : ci_eq a b = true -> length a = length b.
 Proof.
-  unfold ptr_match, name_under_cs, name_under_gen.
+  unfold ci_eq, lower. intros H. apply bytes_eqb_eq in H.
+  rewrite <- (map_length to_lower a), <- (map_length to_lower b), H. reflexivity.
+Qed.
+
+Lemma ptr_match_ci t v : ptr_match t v = name_under t v.
+Proof.
+  unfold ptr_match, name_under, name_under_gen. change ci_eqb with ci_eq.
   destruct (Nat.ltb (length v) (length t)) eqn:E1.
-  - apply Nat.ltb_lt in E1. destruct (bytes_eqb v t) eqn:E2; [apply bytes_eqb_length in E2; lia|].
+  - apply Nat.ltb_lt in E1. destruct (ci_eq v t) eqn:E2; [apply ci_eq_length in E2; lia|].
     destruct (Nat.ltb (length t) (length v)) eqn:E3; [apply Nat.ltb_lt in E3; lia|reflexivity].
   - apply Nat.ltb_ge in E1. destruct (Nat.eqb (length v) (length t)) eqn:E2.
     + apply Nat.eqb_eq in E2. destruct (Nat.ltb (length t) (length v)) eqn:E3; [apply Nat.ltb_lt in E3; lia|].
       cbn. rewrite orb_false_r. reflexivity.
-    + apply Nat.eqb_neq in E2. destruct (bytes_eqb v t) eqn:E4; [apply bytes_eqb_length in E4; lia|].
+    + apply Nat.eqb_neq in E2. destruct (ci_eq v t) eqn:E4; [apply ci_eq_length in E4; lia|].
       destruct (Nat.ltb (length t) (length v)) eqn:E3; [|apply Nat.ltb_ge in E3; lia].
       cbn. rewrite andb_comm. reflexivity.
 Qed.
@@ -208,7 +211,7 @@ Lemma spfptr_plain domain args rest d :
         | [] => SPF_NONE
         | _ => match d_name D (s_client X) with
                | NErr e => addr_result e
-               | NList names => if existsb (name_under_cs (target_of domain d)) (ptr_validated D X (firstn 10 names))
+               | NList names => if existsb (name_under (target_of domain d)) (ptr_validated D X (firstn 10 names))
                                 then SPF_PASS else SPF_NONE
                end
         end, ql).
@@ -228,7 +231,7 @@ Proof.
         | [] => SPF_NONE
         | _ => match d_name D (s_client X) with
                | NErr e => addr_result e
-               | NList names => if existsb (name_under_cs (target_of domain d)) (ptr_validated D X (firstn 10 names))
+               | NList names => if existsb (name_under (target_of domain d)) (ptr_validated D X (firstn 10 names))
                                 then SPF_PASS else SPF_NONE
                end
         end, ql)).
@@ -238,9 +241,9 @@ Proof.
     pose proof (vd_loop_validated (firstn 10 names)) as V.
     destruct (vd_loop D X (firstn 10 names)) as [vs qs]. cbn [fst] in V. subst vs.
     eexists. f_equal. f_equal.
-    rewrite (existsb_ext' (ptr_match (match d with Some n0 => n0 | None => domain end)) (name_under_cs (target_of domain d))).
+    rewrite (existsb_ext' (ptr_match (match d with Some n0 => n0 | None => domain end)) (name_under (target_of domain d))).
     - reflexivity.
-    - intros x. apply ptr_match_cs. }
+    - intros x. apply ptr_match_ci. }
   unfold spfptr. cbv zeta.
   destruct H as [[-> ->]|(n & -> & -> & Hn)].
   - cbn [app]. assert (M : may_have_domainspec rest = 0%Z).
@@ -603,10 +606,7 @@ Proof.
     intros E. apply Nat.leb_gt in E. clear - E. unfold eval_dns_mech.
     destruct (s_remotehost X); [cbn; repeat split; lia|].
     destruct (d_name D (s_client X)) as [e|names]; [exact I|]. cbn [andb].
-    set (vs := ptr_validated D X (firstn 10 names)).
-    destruct (Bool.eqb (existsb (name_under (target_of domain d)) vs) (existsb (name_under_cs (target_of domain d)) vs)) eqn:Q; [|exact I].
-    apply Bool.eqb_prop in Q. rewrite Q. cbn [negb].
-    destruct (existsb (name_under_cs (target_of domain d)) vs); cbn; repeat split; lia. }
+    destruct (existsb (name_under (target_of domain d)) (ptr_validated D X (firstn 10 names))); cbn; repeat split; lia. }
   (* mx *)
   destruct (is_prefix KW_MX (lowerb tok)) eqn:Emx.
   { destruct (lower_kw_split _ _ Emx) as (Ek & Et & _). set (k := firstn (length KW_MX) tok) in *.
